@@ -1,3 +1,277 @@
-(* C20 -- placeholder, filled below *)
+(* C20 -- Malformed inputs are rejected loudly instead of being broadcast silently.
+
+   Statements only; every theorem is closed by [exact <lemma>] and followed by
+   Print Assumptions.
+
+   Model/Validate.v transcribes the accept/reject DECISION LOGIC of every
+   validator of probdiffeq on abstract inputs ([aval]: shapes, dtypes, tree
+   structure, object kinds) in the order of the code; a [verdict] is Accept,
+   TypeErr / ValueErr (an explicit raise of that class) or OtherErr (the first
+   primitive operation chokes on the argument).  Spec/Shapes.v states
+   declaratively what a well-formed argument is.  A theorem
+   [validator = Accept <-> wellformed] says: exactly the well-formed arguments
+   get through, i.e. every malformed one raises.  Where the validator of the
+   unchanged tree accepts malformed arguments the gap is proved as
+   [..._refuted] with a concrete witness (replayed on the implementation by
+   harness/c20.py); the [_partial] theorems state what still holds.
+
+   Which exception class / message is raised at run time and the guarantee
+   "never produces numbers" are observed by the correspondence harness. *)
 From Coq Require Import List Bool Arith ZArith.
-From PD Require Import Model.Validate Spec.Shapes Proofs.ValidateProofs.
+From PD Require Import Model.Validate Spec.Shapes Proofs.ValidateProofs
+  Proofs.ValidateBounded Proofs.ValidateBoundedCube.
+Import ListNotations.
+
+(* ------------------------------------------------------------------------
+   T20.1  verify_taylor_coefficient_pytree.  On data values (numeric leaves, no
+   None, no empty containers) that are not dictionaries the validator accepts
+   exactly the non-empty lists / tuples of coefficient trees that all have the
+   same tree of shapes. *)
+Theorem C20_taylor_coefficient_validator_reflects_wellformedness :
+  forall x, Regular x -> all_numeric x = true -> (forall kvs, x <> ADict kvs) ->
+    (verify x = Accept <-> WfTcoeffs x).
+Proof. exact verify_reflects. Qed.
+
+(* Outside that domain the validator alone has three gaps (each is caught later by
+   the constructors except where T20.6 says otherwise):
+   a dictionary is iterated over its KEYS, *)
+Theorem C20_taylor_coefficient_validator_accepts_dict_container_refuted :
+  exists x, verify x = Accept /\ ~ WfTcoeffs x.
+Proof. exact verify_accepts_dict_container_refuted. Qed.
+
+(* Python's == identifies the shape () of a scalar with an empty tuple node, *)
+Theorem C20_taylor_coefficient_validator_confuses_empty_tuple_with_scalar_refuted :
+  exists x, verify x = Accept /\ ~ WfTcoeffs x.
+Proof. exact verify_confuses_empty_tuple_with_scalar_refuted. Qed.
+
+(* and np.shape of an arbitrary object (a function) is (). *)
+Theorem C20_taylor_coefficient_validator_accepts_function_leaves_refuted :
+  exists x, verify x = Accept /\ ~ WfTcoeffs x.
+Proof. exact verify_accepts_function_leaves_refuted. Qed.
+
+(* ------------------------------------------------------------------------
+   T20.2  prior_wiener_integrated(tcoeffs, is_exact, output_scale), the three
+   factorisations.  Bounded-exhaustive: for every valid base argument set of
+   [bases f] and every abstract value of [universe] (3840 trees of depth <= 2,
+   width <= 2 over 18 kinds of leaves) substituted for ONE argument -- the
+   quantifier of the property -- the constructor accepts iff the argument set is
+   well-formed (for the coefficient field: on values without None / empty
+   containers, see T20.4). *)
+Theorem C20_prior_single_field_corruptions_rejected_bounded_partial :
+  forall f b x, In b (bases f) -> In x universe ->
+    (Regular x -> (prior_iwp f x (b_ie b) (b_sc b) = Accept <-> WfPriorIwp f x (b_ie b) (b_sc b))) /\
+    (prior_iwp f (b_tc b) x (b_sc b) = Accept <-> WfPriorIwp f (b_tc b) x (b_sc b)) /\
+    (prior_iwp f (b_tc b) (b_ie b) x = Accept <-> WfPriorIwp f (b_tc b) (b_ie b) x).
+Proof. exact prior_iwp_single_field_reflection_bounded. Qed.
+
+(* ... and for ALL triples (multi-field corruptions) of the 119-element [cube]. *)
+Theorem C20_prior_all_argument_triples_bounded_partial :
+  forall f tc ie sc, In tc cube -> In ie cube -> In sc cube -> Regular tc ->
+    (prior_iwp f tc ie sc = Accept <-> WfPriorIwp f tc ie sc).
+Proof. exact prior_iwp_reflection_bounded_cube. Qed.
+
+(* T20.3  Scalar flags per leaf are DOCUMENTED behaviour (`is_exact: C | bool`, shape ()
+   promoted per leaf): well-formed and accepted; a broadcastable-but-wrong flag shape
+   (1,) against a leaf of shape (3,) (isotropic: anything but a scalar) is rejected with
+   the ValueError of the shape check. *)
+Theorem C20_scalar_flags_per_leaf_are_wellformed_and_accepted :
+  WfPriorIwp Dense ex_mean (AList [AArr [] DBool; AArr [3] DBool]) ANone /\
+  prior_iwp Dense ex_mean (AList [AArr [] DBool; AArr [3] DBool]) ANone = Accept.
+Proof. exact scalar_flags_are_wellformed_and_accepted. Qed.
+
+Theorem C20_broadcastable_flag_shapes_are_rejected :
+  prior_iwp Dense ex_mean (AList [AArr [1] DBool; AArr [3] DBool]) ANone = ValueErr /\
+  prior_iwp BlockDiag ex_mean (AList [AArr [1] DBool; AArr [3] DBool]) ANone = ValueErr /\
+  prior_iwp Isotropic ex_mean (AList [AArr [1] DBool; AArr [] DBool]) ANone = ValueErr.
+Proof. exact broadcastable_flags_are_rejected. Qed.
+
+(* T20.4  The corner excluded above: the dense constructor accepts a scalar coefficient
+   next to an empty tuple (the object fails at first use; observed by the harness). *)
+Theorem C20_prior_dense_accepts_empty_tuple_coefficient_refuted :
+  exists tc, prior_iwp Dense tc APyBool ANone = Accept /\ ~ WfPriorIwp Dense tc APyBool ANone.
+Proof. exact prior_iwp_dense_empty_tuple_refuted. Qed.
+
+(* ------------------------------------------------------------------------
+   T20.5  prior_exponential (dense): the ODE must be an autonomous ODE description
+   whose order equals the number of coefficients (TypeError otherwise), the rest as
+   T20.2; same bounded quantifier, ODE objects from [odes]. *)
+Theorem C20_exponential_prior_single_field_corruptions_rejected_bounded_partial :
+  forall o b x, In o odes -> In b (bases Dense) -> In x universe ->
+    (Regular x -> (prior_exp Dense o x (b_ie b) (b_sc b) = Accept <-> WfPriorExp Dense o x (b_ie b) (b_sc b))) /\
+    (prior_exp Dense o (b_tc b) x (b_sc b) = Accept <-> WfPriorExp Dense o (b_tc b) x (b_sc b)) /\
+    (prior_exp Dense o (b_tc b) (b_ie b) x = Accept <-> WfPriorExp Dense o (b_tc b) (b_ie b) x).
+Proof. exact prior_exp_single_field_reflection_bounded. Qed.
+
+Theorem C20_exponential_prior_only_for_dense :
+  forall f ode tc ie sc, f <> Dense -> prior_exp f ode tc ie sc = OtherErr.
+Proof. exact prior_exp_not_implemented. Qed.
+
+(* ------------------------------------------------------------------------
+   T20.6  prior_wiener_integrated_diffuse(mean, std, output_scale): explicit standard
+   deviations.  from_mean_and_std of the dense and block-diagonal factorisations never
+   compares std with mean (only the flattened sizes, resp. broadcasting): GENUINE GAPS
+   on the unchanged tree -- a std container with the wrong tree structure, *)
+Theorem C20_explicit_std_dense_wrong_tree_structure_refuted :
+  exists mean std, prior_iwp_diffuse Dense mean std ANone = Accept /\ ~ WfPriorDiffuse Dense mean std ANone.
+Proof. exact prior_iwp_diffuse_dense_ignores_std_structure_refuted. Qed.
+
+(* a dictionary instead of a sequence, *)
+Theorem C20_explicit_std_dense_dict_container_refuted :
+  exists mean std, prior_iwp_diffuse Dense mean std ANone = Accept /\ ~ WfPriorDiffuse Dense mean std ANone.
+Proof. exact prior_iwp_diffuse_dense_accepts_dict_std_refuted. Qed.
+
+(* leaves of the wrong rank, *)
+Theorem C20_explicit_std_dense_wrong_rank_refuted :
+  exists mean std, prior_iwp_diffuse Dense mean std ANone = Accept /\ ~ WfPriorDiffuse Dense mean std ANone.
+Proof. exact prior_iwp_diffuse_dense_ignores_std_rank_refuted. Qed.
+
+Theorem C20_explicit_std_blockdiag_wrong_rank_refuted :
+  exists mean std, prior_iwp_diffuse BlockDiag mean std ANone = Accept /\ ~ WfPriorDiffuse BlockDiag mean std ANone.
+Proof. exact prior_iwp_diffuse_blockdiag_ignores_std_rank_refuted. Qed.
+
+(* and too few coefficients, silently broadcast. *)
+Theorem C20_explicit_std_blockdiag_wrong_length_is_broadcast_refuted :
+  exists mean std, prior_iwp_diffuse BlockDiag mean std ANone = Accept /\ ~ WfPriorDiffuse BlockDiag mean std ANone.
+Proof. exact prior_iwp_diffuse_blockdiag_broadcasts_short_std_refuted. Qed.
+
+(* What does hold (on the cube): the isotropic factorisation has no gap; *)
+Theorem C20_explicit_std_isotropic_bounded_partial :
+  forall mean std sc, In mean cube -> In std cube -> In sc cube -> Regular mean -> Regular std ->
+    (prior_iwp_diffuse Isotropic mean std sc = Accept <-> WfPriorDiffuse Isotropic mean std sc).
+Proof. exact prior_iwp_diffuse_isotropic_reflection_bounded_cube. Qed.
+
+(* all factorisations accept every well-formed argument set; *)
+Theorem C20_explicit_std_wellformed_is_accepted_bounded_partial :
+  forall f mean std sc, In mean cube -> In std cube -> In sc cube ->
+    WfPriorDiffuse f mean std sc -> prior_iwp_diffuse f mean std sc = Accept.
+Proof. exact prior_iwp_diffuse_accepts_wellformed_bounded_cube. Qed.
+
+(* and an accepted pair has a well-formed mean, a std that is a coefficient container on
+   its own (or a dictionary), and a well-formed base scale. *)
+Theorem C20_explicit_std_accepted_pairs_bounded_partial :
+  forall f mean std sc, In mean cube -> In std cube -> In sc cube -> Regular mean -> Regular std ->
+    prior_iwp_diffuse f mean std sc = Accept ->
+    WfTcoeffs mean /\ (WfTcoeffs std \/ exists kvs, std = ADict kvs) /\ WfBaseScale f mean sc.
+Proof. exact prior_iwp_diffuse_accepted_partial_bounded_cube. Qed.
+
+(* ------------------------------------------------------------------------
+   T20.7  transition(dt, output_scale): the calibrated scale is accepted iff it is
+   array-like with EXACTLY the expected shape (() dense / isotropic, (d,) blockdiag);
+   all inputs. *)
+Theorem C20_calibrated_output_scale_check_reflects_wellformedness :
+  forall expected cal, transition_check expected cal = Accept <-> WfCal expected cal.
+Proof. exact transition_check_reflects. Qed.
+
+(* T20.8  Object-type gates: constraint_ode_ts0/ts1 and the jet expansions accept
+   exactly JetOde objects, constraint_residual exactly JetResidual objects, the
+   time-series loss exactly MarkovSequence posteriors; everything else (plain
+   functions, None, arrays, the other kind) raises TypeError. *)
+Theorem C20_object_type_gates_reflect :
+  forall o,
+    (gate_jetode o = Accept <-> IsJetOde o) /\
+    (gate_jetresidual o = Accept <-> IsJetResidual o) /\
+    (gate_posterior o = Accept <-> IsMarkovSeq o).
+Proof.
+  exact (fun o => conj (gate_jetode_reflects o)
+                       (conj (gate_jetresidual_reflects o) (gate_posterior_reflects o))).
+Qed.
+
+Theorem C20_object_type_gates_reject_with_TypeError :
+  forall o,
+    (gate_jetode o = Accept \/ gate_jetode o = TypeErr) /\
+    (gate_jetresidual o = Accept \/ gate_jetresidual o = TypeErr) /\
+    (gate_posterior o = Accept \/ gate_posterior o = TypeErr).
+Proof. exact gates_reject_with_TypeError. Qed.
+
+(* T20.9  Lift orders: a non-integer lift_by raises TypeError at construction; at first
+   use a residual of order k on n jet coordinates is lifted iff 0 <= lift_by <= n - k
+   (ValueError otherwise); an ODE of order k counts as a residual of order k+1. *)
+Theorem C20_lift_by_must_be_an_integer :
+  forall lb, lift_construct lb = Accept <-> exists z, lb = Some z.
+Proof. exact lift_construct_reflects. Qed.
+
+Theorem C20_lift_by_range_check_reflects :
+  forall k n z, lift_residual_use k n z = Accept <-> lift_in_range k n z.
+Proof. exact lift_residual_use_reflects. Qed.
+
+Theorem C20_lift_by_range_check_rejects_with_ValueError :
+  forall k n z, lift_residual_use k n z = Accept \/ lift_residual_use k n z = ValueErr.
+Proof. exact lift_residual_use_rejects_with_ValueError. Qed.
+
+Theorem C20_ode_lift_by_range_check_reflects :
+  forall k n z, lift_ode_use k n z = Accept <-> lift_in_range (S k) n z.
+Proof. exact lift_ode_use_reflects. Qed.
+
+(* T20.10  Observation-noise containers of both losses: accepted iff the container has
+   exactly the tree structure and leaf shapes expected (all inputs; the expected
+   container, computed by the library, is a tree of numeric leaves). *)
+Theorem C20_loss_std_container_check_reflects_wellformedness :
+  forall std expected, CoeffTree expected ->
+    (loss_std_check std expected = Accept <-> WfLossStd std expected).
+Proof. exact loss_std_check_reflects. Qed.
+
+Theorem C20_timeseries_loss_checks_posterior_type_then_std :
+  forall post std expected, CoeffTree expected ->
+    (loss_timeseries_check post std expected = Accept <-> IsMarkovSeq post /\ WfLossStd std expected).
+Proof. exact loss_timeseries_check_reflects. Qed.
+
+(* T20.11  Residual-based error estimate: the isotropic / block-diagonal factorisations
+   accept exactly m = d constraint entries; *)
+Theorem C20_error_residual_shape_check_reflects_isotropic_blockdiag :
+  forall f m d, f <> Dense -> (error_residual_check f m d = Accept <-> WfErrorResidual m d).
+Proof. exact error_residual_reflects_iso_blockdiag. Qed.
+
+(* the dense one also accepts m = 1 (`error.shape not in [(1,), reference.shape]`): a single
+   constraint row is silently broadcast against a d-dimensional state -- GENUINE GAP. *)
+Theorem C20_error_residual_shape_check_dense_refuted :
+  exists m d, error_residual_check Dense m d = Accept /\ ~ WfErrorResidual m d.
+Proof. exact error_residual_dense_refuted. Qed.
+
+Theorem C20_error_residual_shape_check_dense_partial :
+  forall m d, error_residual_check Dense m d = Accept <-> m = 1 \/ m = d.
+Proof. exact error_residual_dense_accepts_exactly. Qed.
+
+(* T20.12  Matrix-free ensembles: at least as many members as Taylor coefficients. *)
+Theorem C20_ensemble_count_check_reflects :
+  forall ens n, matfree_check ens n = Accept <-> WfEnsembles ens n.
+Proof. exact matfree_check_reflects. Qed.
+
+(* T20.13  A warning is emitted exactly for the pairings documented as unsuitable
+   (unless switched off with warn=False). *)
+Theorem C20_unsuitable_pairings_warn :
+  forall s r, warns s r = true <-> Unsuitable s r /\ r <> RSaveAt false.
+Proof. exact warns_reflects. Qed.
+
+Print Assumptions C20_taylor_coefficient_validator_reflects_wellformedness.
+Print Assumptions C20_taylor_coefficient_validator_accepts_dict_container_refuted.
+Print Assumptions C20_taylor_coefficient_validator_confuses_empty_tuple_with_scalar_refuted.
+Print Assumptions C20_taylor_coefficient_validator_accepts_function_leaves_refuted.
+Print Assumptions C20_prior_single_field_corruptions_rejected_bounded_partial.
+Print Assumptions C20_prior_all_argument_triples_bounded_partial.
+Print Assumptions C20_scalar_flags_per_leaf_are_wellformed_and_accepted.
+Print Assumptions C20_broadcastable_flag_shapes_are_rejected.
+Print Assumptions C20_prior_dense_accepts_empty_tuple_coefficient_refuted.
+Print Assumptions C20_exponential_prior_single_field_corruptions_rejected_bounded_partial.
+Print Assumptions C20_exponential_prior_only_for_dense.
+Print Assumptions C20_explicit_std_dense_wrong_tree_structure_refuted.
+Print Assumptions C20_explicit_std_dense_dict_container_refuted.
+Print Assumptions C20_explicit_std_dense_wrong_rank_refuted.
+Print Assumptions C20_explicit_std_blockdiag_wrong_rank_refuted.
+Print Assumptions C20_explicit_std_blockdiag_wrong_length_is_broadcast_refuted.
+Print Assumptions C20_explicit_std_isotropic_bounded_partial.
+Print Assumptions C20_explicit_std_wellformed_is_accepted_bounded_partial.
+Print Assumptions C20_explicit_std_accepted_pairs_bounded_partial.
+Print Assumptions C20_calibrated_output_scale_check_reflects_wellformedness.
+Print Assumptions C20_object_type_gates_reflect.
+Print Assumptions C20_object_type_gates_reject_with_TypeError.
+Print Assumptions C20_lift_by_must_be_an_integer.
+Print Assumptions C20_lift_by_range_check_reflects.
+Print Assumptions C20_lift_by_range_check_rejects_with_ValueError.
+Print Assumptions C20_ode_lift_by_range_check_reflects.
+Print Assumptions C20_loss_std_container_check_reflects_wellformedness.
+Print Assumptions C20_timeseries_loss_checks_posterior_type_then_std.
+Print Assumptions C20_error_residual_shape_check_reflects_isotropic_blockdiag.
+Print Assumptions C20_error_residual_shape_check_dense_refuted.
+Print Assumptions C20_error_residual_shape_check_dense_partial.
+Print Assumptions C20_ensemble_count_check_reflects.
+Print Assumptions C20_unsuitable_pairings_warn.
